@@ -676,6 +676,7 @@ class Loader:
                     _LOGGER.critical('Removing incorrect placement: %s/%s',
                                      app2server[app], app)
                     self.backend.delete(z.path.placement(app2server[app], app))
+                    app2server[app] = correct_placement
 
         # Cross check that all apps in the model are recorded in placement.
         success = True
